@@ -300,10 +300,17 @@ def check_case(ctx, case, full=True):
                            ("inds-empty", np.zeros(0, dtype=np.int64)),
                            ("inds-uint32", np.sort(rng.choice(n, size=max(1, n // 2),
                                                               replace=False)).astype(np.uint32))):
+            inds0 = inds.copy()
             ok, r, tb = ctx.guarded(arr.intersects_bounds, (x0, y0, x1, y1), inds)
             if not ok:
                 rec_raise(name, r, tb, name)
                 continue
+            ctx.count("inds_untouched_checked")
+            if inds.dtype != inds0.dtype or not np.array_equal(inds, inds0):
+                ctx.violation("input-modified", f"intersects_bounds:{kind}:callers-inds-array-written",
+                              {"kind": kind, "subtype": subtype}, expected=inds0.tolist()[:30],
+                              observed=inds.tolist()[:30], case=case)
+                inds = inds0
             cmp_form(name, r, impl[inds.astype(np.int64), j], j, {"inds": inds.tolist()})
             ctx.sig(kind, subtype, name)
     # scalar form
